@@ -151,6 +151,18 @@ def o_broadband(a):
                 if abs(v - a['pd']) > 1e-9 or abs(w - a['pa']) > 1e-9:
                     ok = False
                     obs['band'] = 'index %r over %r-%r keV with %d points: degree %r (constant %r), angle %r (constant %r)' % (idx, e0, e1, npts, float(v), a['pd'], float(w), a['pa'])
+    # … and for spectra given as tables (spline objects of the package), also when the table does not cover the whole band
+    from ixpeobssim.core.spline import xInterpolatedUnivariateSpline
+    for (x0, x1, npt, k) in ((1., 12., 40, 3), (1., 12., 12, 1), (1., 7., 30, 3), (3., 10., 25, 1)):
+        xe = numpy.linspace(x0, x1, npt)
+        tab = xInterpolatedUnivariateSpline(xe, a['norm'] * xe ** (-a['index']), k=k)
+        for (e0, e1) in ((2., 8.), (4., 8.), (a['emin'], a['emax'])):
+            v = broadband_pol_deg(tab, constant(a['pd']), e0, e1)
+            w = broadband_pol_ang(tab, constant(a['pa']), e0, e1, degrees=False)
+            if abs(v - a['pd']) > 1e-9 or abs(w - a['pa']) > 1e-9:
+                ok = False
+                obs['table'] = 'spectrum tabulated on %r-%r keV (%d nodes, order %d) averaged over %r-%r keV: degree %r (constant %r), angle %r (constant %r)' % (
+                    x0, x1, npt, k, e0, e1, float(v), a['pd'], float(w), a['pa'])
     # Stokes parameters scaled by an intensity and normalised again, for intensities of any numeric type (counts, whole-number fluxes)
     from ixpeobssim.core.stokes import xModelStokesParameters as MSP
     for dt in ('float64', 'float32', 'int64', 'uint16'):
